@@ -46,8 +46,20 @@ class StepHook:
         self.cls.step = self.orig
 
 
-def run_record(js, strategy, options=None, inject_at=None, tmpdir=None):
-    """one exact run -> record dict (everything as Fractions / plain data)"""
+class Timeout(BaseException):
+    pass
+
+
+def _json_default(self, o):
+    from ex import Ex
+    if isinstance(o, Ex):
+        return float(o)
+    raise TypeError("not JSON serializable: %r" % (o,))
+
+
+def run_record(js, strategy, options=None, inject_at=None, tmpdir=None, reports=False, time_limit=120):
+    """one exact run -> record dict (everything as Fractions / plain data).
+    reports: also write results JSON / timeseries CSV / SoC CSV (report generation is part of the run)."""
     import contextlib
     import io
     import warnings
@@ -59,8 +71,19 @@ def run_record(js, strategy, options=None, inject_at=None, tmpdir=None):
     feats = js2.pop("_features", [])
     opts = {"skip_flex_report": True}
     opts.update(options or {})
+    rdir = None
+    if reports:
+        rdir = tempfile.mkdtemp(prefix="verif_rep_")
+        opts.update({"testing": True, "save_results": os.path.join(rdir, "r.json"), "save_timeseries": os.path.join(rdir, "t.csv"),
+                     "save_soc": os.path.join(rdir, "s.csv")})
+    json.JSONEncoder.default = _json_default
     buf = io.StringIO()
     raised = None
+    import signal
+
+    def on_alarm(*a):
+        raise Timeout()
+    old_alarm = signal.signal(signal.SIGALRM, on_alarm)
     with warnings.catch_warnings():
         warnings.simplefilter("ignore")
         with contextlib.redirect_stdout(buf):
@@ -72,13 +95,26 @@ def run_record(js, strategy, options=None, inject_at=None, tmpdir=None):
                 hook = StepHook(rec, inject_at)
                 hook.install(cls)
                 try:
+                    signal.alarm(time_limit)
                     s.run(strategy, opts)
+                except Timeout:
+                    raised = "Timeout(%ds)" % time_limit
                 except Exception as e:  # noqa
                     raised = repr(e)[:300]
                 finally:
+                    signal.alarm(0)
+                    signal.signal(signal.SIGALRM, old_alarm)
                     hook.remove()
+    files = {}
+    if rdir:
+        names = sorted(os.listdir(rdir))
+        files["json"] = len([x for x in names if x.startswith("r") and x.endswith(".json")])
+        files["csv"] = [len(open(os.path.join(rdir, x)).read().splitlines()) for x in names if x.startswith("t") and x.endswith(".csv")]
+        if "s.csv" in names:
+            files["s.csv"] = len(open(os.path.join(rdir, "s.csv")).read().splitlines())
+        shutil.rmtree(rdir, ignore_errors=True)
     r = {"strategy": strategy, "options": {k: v for k, v in (options or {}).items()}, "features": feats, "js": js,
-         "raised": raised, "inject_at": inject_at, "n_intervals": s.n_intervals, "steps": rec.steps,
+         "raised": raised, "phase": "run" if rec.steps else "init", "reports": reports, "files": files, "inject_at": inject_at, "n_intervals": s.n_intervals, "steps": rec.steps,
          "strat_errors": hook.errors, "stdout_tail": buf.getvalue()[-400:]}
     if raised is None:
         gcs = list(s.components.grid_connectors.keys())
@@ -122,8 +158,8 @@ def tw_file(tmpdir, rng, start):
 def pool(seed, tier, strategies=None, n_fast=None, n_slow=None, inject=False, feature_sets=None):
     """list of run records.  quick: ~45 fast scenarios x 3 fast strategies + ~8 small scenarios x slow strategies"""
     rng = random.Random("pool/%d" % seed)
-    n_fast = n_fast if n_fast is not None else (45 if tier == "quick" else 400)
-    n_slow = n_slow if n_slow is not None else (6 if tier == "quick" else 50)
+    n_fast = n_fast if n_fast is not None else (140 if tier == "quick" else 1200)
+    n_slow = n_slow if n_slow is not None else (8 if tier == "quick" else 60)
     strategies = strategies or scen.STRATS
     recs = []
     tmp = tempfile.mkdtemp(prefix="verif_sim_")
@@ -143,7 +179,14 @@ def pool(seed, tier, strategies=None, n_fast=None, n_slow=None, inject=False, fe
                 if rng.random() < 0.3:
                     opts["PRICE_THRESHOLD"] = rng.choice([0.05, 0.2])
                 inj = rng.randrange(js["scenario"]["n_intervals"]) if inject and rng.random() < 0.3 else None
-                recs.append(run_record(js, st, opts, inject_at=inj))
+                recs.append(run_record(js, st, opts, inject_at=inj, reports=inject and rng.random() < 0.5))
+        for i in range(n_slow):
+            # two-connector scenarios for the look-ahead strategies that support them
+            js = scen.gen_scenario(rng, n_gc=2, n_veh=rng.randint(2, 4), steps=rng.choice([6, 10]), interval=60)
+            for st in ("balanced_market", "peak_shaving"):
+                if st in strategies:
+                    inj = rng.randrange(js["scenario"]["n_intervals"]) if inject and rng.random() < 0.3 else None
+                    recs.append(run_record(js, st, {"ALLOW_NEGATIVE_SOC": True}, inject_at=inj, reports=inject and rng.random() < 0.5))
         for i in range(n_slow):
             js = scen.gen_scenario(rng, n_gc=1, n_veh=rng.randint(1, 3), steps=rng.choice([8, 12]), interval=60)
             # window signals for flex_window / schedule, targets for schedule
@@ -153,7 +196,8 @@ def pool(seed, tier, strategies=None, n_fast=None, n_slow=None, inject=False, fe
                 t = start + datetime.timedelta(hours=k)
                 js["events"]["grid_operator_signals"].append({
                     "signal_time": scen.iso(start), "start_time": scen.iso(t), "grid_connector_id": gid,
-                    "window": bool((k // 3) % 2), "target": rng.choice([0, 5, 10, 20])})
+                    # a scheduled target never exceeds the smallest limit the scenario can signal (rating/4)
+                    "window": bool((k // 3) % 2), "target": rng.choice([0, 1, 2.5, 5])})
             js["scenario"]["core_standing_time"] = {"times": [{"start": [22, 0], "end": [5, 0]}], "no_drive_days": [6]}
             for st in SLOW:
                 if st not in strategies:
@@ -166,7 +210,7 @@ def pool(seed, tier, strategies=None, n_fast=None, n_slow=None, inject=False, fe
                 if st == "schedule":
                     opts["LOAD_STRAT"] = rng.choice(["collective", "individual"])
                 inj = rng.randrange(js["scenario"]["n_intervals"]) if inject and rng.random() < 0.3 else None
-                recs.append(run_record(js, st, opts, inject_at=inj))
+                recs.append(run_record(js, st, opts, inject_at=inj, reports=inject and rng.random() < 0.5))
     finally:
         shutil.rmtree(tmp, ignore_errors=True)
     return recs
@@ -187,8 +231,10 @@ class RunLoopUnit(corr.Unit):
     records = []
     pred = None       # implementation-level predicate evaluated on every record
 
+    max_cases = 10**9       # the Coq comparison runs on the first max_cases records, the predicate on all
+
     def generate(self, rng, n, biased=False):
-        return [r for r in self.records if r["raised"] is None]
+        return list(self.records)
 
     def check_property(self, case, out):
         return self.pred(case) if self.pred else []
@@ -216,6 +262,8 @@ class RunLoopUnit(corr.Unit):
         return gcs
 
     def emit(self, case, out):
+        if case["raised"] is not None or case.get("_skip_model"):
+            return "{| rc_eps := 0; rc_steps := []; rc_rows := []; rc_aborted := false |}"
         steps = []
         for i, st in enumerate(case["steps"]):
             gcs = self.obs(case, st)
@@ -282,6 +330,8 @@ def check_c04(rec):
                 cls = "C04/strategy-breaks-limit/"
                 if rec["strategy"] in ("flex_window", "peak_load_window", "schedule", "balanced_market", "peak_shaving") and 0 < excess <= forecast_gap + eps:
                     cls = "C04/forecast-mismatch/"       # allocation planned on the weekly-average fixed load
+                elif gs["cur_max"] < gs["max"] and abs(load) <= gs["max"] + eps:
+                    cls = "C04/limit-below-rating/"      # planned against the rating although a lower operator limit is in force
                 v.append((cls + rec["strategy"],
                           "step %d %s: fixed-generation = %s within limit %s but load after strategy = %s: %s; loads=%s js=%s" % (
                               i, g, float(base), float(gs["cur_max"]), float(load), desc,
@@ -362,6 +412,9 @@ def check_c06(rec):
                 kinds = set(c[0] for c in st.get("calls", []) if c[1] == vid)
                 v.append(("C06/vehicle-energy-mixed-step" if kinds == {"load", "unload"} else "C06/vehicle-energy", "step %d vehicle %s: stored %s kWh, station power x dt x eff = %s kWh: %s" % (
                     i, vid, float(vi["cap"] * (s1 - s0)), float(want), desc)))
+            if loss["veh"][vid]["soc"] != s1:
+                v.append(("C06/vehicle-soc-changed-by-losses", "step %d vehicle %s (no loss rate): soc %s -> %s in apply_battery_losses: %s" % (
+                    i, vid, float(s1), float(loss["veh"][vid]["soc"]), desc)))
             if s1 > 1:
                 v.append(("C06/soc-above-1", "step %d vehicle %s soc %s: %s" % (i, vid, float(s1), desc)))
         for bid, bi in rec["bat"].items():
@@ -383,8 +436,10 @@ def check_c17(rec):
     desc = "%s %s features=%s inject_at=%s" % (rec["strategy"], rec["options"], rec["features"], rec["inject_at"])
     if rec["raised"]:
         # constructor-time rejections of unsupported scenarios are not runs
-        if "run" in rec.get("where", ""):
-            v.append(("C17/crash", "run raised %s: %s" % (rec["raised"], desc)))
+        if rec["raised"].startswith("Timeout"):
+            v.append(("C17/timeout", "run did not finish within the time limit (%s): %s" % (rec["raised"], desc)))
+        elif rec.get("phase") == "run":
+            v.append(("C17/crash", "the run (incl. report generation=%s) raised %s: %s" % (rec.get("reports"), rec["raised"], desc)))
         return v
     n = rec["step_i"]
     lens = rec["len"]
@@ -403,12 +458,17 @@ def check_c17(rec):
             v.append(("C17/abort-position", "fault at step %d: step_i %d aborted=%s: %s" % (first_err, n, rec["aborted"], desc)))
     if len(rec["steps"]) != n:
         v.append(("C17/continued-after-abort", "%d steps executed, %d reported: %s" % (len(rec["steps"]), n, desc)))
+    if rec.get("reports"):
+        f = rec.get("files", {})
+        ngc = len(rec["gc_ids"])
+        if f.get("json") != ngc or f.get("s.csv") != n + 1 or sorted(f.get("csv", [])) != [n + 1] * ngc:
+            v.append(("C17/report-files", "report files %s do not hold one row per simulated step (%d): %s" % (f, n, desc)))
     return v[:3]
 
 
 def slim(rec):
     """replay payload of a record: enough to re-run it"""
-    return {"js": rec["js"], "strategy": rec["strategy"], "options": rec["options"], "inject_at": rec["inject_at"]}
+    return {"js": rec["js"], "strategy": rec["strategy"], "options": rec["options"], "inject_at": rec["inject_at"], "reports": rec.get("reports", False)}
 
 
 SIM_TRUSTED = ["harness/scen.py: scenario generator, exactify (object-graph float -> exact rational), class-level recorder patches "
@@ -426,6 +486,8 @@ def sim_run(pid, tier, pred, inject=False, extra_units=(), n_kernel=(600, 6000))
     import kernel
     sd = C.seed()
     RUNLOOP.records = pool(sd, tier, inject=inject)
+    for i, r_ in enumerate(RUNLOOP.records):
+        r_["_skip_model"] = i % 3 != 0 and tier == "quick"     # every third run goes through the Coq run-loop model in the quick tier
     RUNLOOP.pred = pred
     RUNLOOP.emit_case = None
     orig_key = corr.Unit.key
@@ -455,9 +517,34 @@ def sim_replay(payload, pred):
     if "js" not in case:
         print("replay: not a simulation record")
         return 2
-    rec = run_record(case["js"], case["strategy"], case.get("options"), inject_at=case.get("inject_at"))
+    rec = run_record(case["js"], case["strategy"], case.get("options"), inject_at=case.get("inject_at"), reports=case.get("reports", False))
     v = pred(rec)
     for cls, what in v:
         print("VIOLATION-REPLAY %s: %s" % (cls, what[:600]))
     print("replay: %d violation(s)" % len(v))
     return 1 if v else 0
+
+
+def check_c08(rec):
+    """simulation-level half of C08: the negative-SoC policy and 'a disconnected vehicle's SoC does not change' through whole runs"""
+    v = []
+    if rec["raised"]:
+        return v
+    desc = "%s %s features=%s" % (rec["strategy"], rec["options"], rec["features"])
+    prev = None
+    for i, st in enumerate(rec["steps"]):
+        pre, post, loss = st.get("pre"), st.get("post"), st.get("loss")
+        if st["pre_error"] == "RuntimeError" and (len(rec["steps"]) != i + 1 or not rec["aborted"]):
+            v.append(("C08/negative-soc-does-not-stop", "negative SoC raised at step %d but %d steps ran (aborted=%s): %s" % (i, len(rec["steps"]), rec["aborted"], desc)))
+            break
+        if pre is None or post is None or loss is None:
+            continue
+        for vid, x in post["veh"].items():
+            if loss["veh"][vid]["soc"] != x["soc"]:
+                v.append(("C08/soc-changed-outside-events", "step %d vehicle %s: soc %s -> %s in apply_battery_losses (no loss rate): %s" % (
+                    i, vid, float(x["soc"]), float(loss["veh"][vid]["soc"]), desc)))
+            if pre["veh"][vid]["cs"] is None and x["soc"] != pre["veh"][vid]["soc"]:
+                v.append(("C08/disconnected-soc-changed", "step %d vehicle %s has no station, soc %s -> %s during the strategy step: %s" % (
+                    i, vid, float(pre["veh"][vid]["soc"]), float(x["soc"]), desc)))
+        prev = loss
+    return v[:3]
